@@ -334,6 +334,7 @@ def _run(ctx):
                     "and parsed from bytes encoded by the proved specification writer; plus untyped random Python objects for the model-as-function "
                     "correspondence; trivial = empty struct; distinct = distinct (stream, tree)") % ", ".join(ROOTS)
         stream_api(ctx, pq, w, enums, structs, specs_names)
+        stream_pickle(ctx, w, enums, structs, specs_names)
         stream_foreign(ctx, pq, w, enums, structs, specs_names)
         stream_generic(ctx, pq, w)
         stream_dict_eq(ctx, pq, w)
@@ -407,7 +408,8 @@ def stream_api(ctx, pq, w, enums, structs, specs_names):
     rng = ctx.rng
     n = 500 if ctx.quick() else 9000
     g = Gen(rng, enums, structs, specs_names, "main")
-    trees = []
+    trees = corpus_trees()
+    ctx.extra["corpus_cases"] = len(trees)
     for i in range(n):
         rootname = ROOTS[i % len(ROOTS)]
         g.budget = 0
@@ -464,6 +466,32 @@ def bucket(n):
         if n <= lim:
             return "<=%d" % lim
     return ">100000"
+
+
+def stream_pickle(ctx, w, enums, structs, specs_names):
+    """observe_at: pickle.dumps(ThriftObject) (__reduce_ex__ = from_buffer(bytes(to_bytes()), name))"""
+    rng = ctx.rng
+    g = Gen(rng, enums, structs, specs_names, "main")
+    for i in range(60 if ctx.quick() else 600):
+        g.budget = 0
+        tr = g.struct(ROOTS[i % len(ROOTS)], 0, (1, 2, 15))
+        case = {"stream": "pickle", "root": tr[1], "tree": tree_json(tr)}
+        ctx.case(case, trivial=(not tr[2]))
+        r = w.call("pickle", (tr[1], to_raw(tr)))
+        if r[0] != "ok" or not r[1][0]:
+            ctx.fail({"component": "pickle", "kind": "not-equal" if r[0] == "ok" else "crash-or-exception", "stream": "pickle", "root": tr[1]},
+                     case, "pickle.loads(pickle.dumps(x)) != x: %r" % (r[:2],))
+
+
+def corpus_trees():
+    """minimised past disagreements / tricky shapes (corpus/C10/*.json), run first in the API stream"""
+    import glob
+    out = []
+    for p in sorted(glob.glob(os.path.join(C.VERIF, "corpus", "C10", "*.json"))):
+        j = json.load(open(p))
+        if j.get("stream") == "api":
+            out.append(tree_unjson(j["tree"]))
+    return out
 
 
 # ---- stream 2: parsed from independently (spec-)encoded bytes, then re-serialised ---------------------
@@ -645,7 +673,7 @@ def boundary_case(ctx, pq, root, tr, size):
     ctx.correspondence("to_bytes at the buffer boundary ~ impl model c_to_bytes", case, sha_out(m), ["ok", len(b), C.sha(b)[:20]])
     if b != want or not eq:
         ctx.fail({"component": "to_bytes", "kind": "truncated" if len(b) < len(want) else "wrong-bytes", "stream": "boundary",
-                  "over": size - CAP}, case, "to_bytes returned %d bytes, the serialisation has %d; equal after parse: %s" % (len(b), len(want), eq))
+                  "over": size - cap}, case, "to_bytes returned %d bytes, the serialisation has %d; equal after parse: %s" % (len(b), len(want), eq))
 
 
 def sha_out(m):
@@ -705,7 +733,8 @@ def known_case(ctx, pq, root, tr, cls, expect_model=None):
     if expect_model:
         ctx.correspondence("impl model outcome class on the confirmation inputs (ok / oob)", case, sym(m[0]), expect_model)
     if r[0] != "ok":
-        ctx.fail(dict(cls, outcome="crash" if r[0] == "crash" else r[0]), case, "worker: %r" % (r[:3],))
+        want = bytes(pq.call("thrift_enc", to_tv(tr))[1])
+        ctx.fail(dict(cls, outcome="crash" if r[0] == "crash" else r[0], over=len(want) - CAP), case, "worker: %r" % (r[:3],))
         return
     b, x, y, eq, cap = r[1]
     if sym(m[0]) == "ok":
@@ -715,7 +744,7 @@ def known_case(ctx, pq, root, tr, cls, expect_model=None):
     idl = pq.call("idl_dec", tr[1], 0, 0, 1, b)
     conf = sym(idl[0]) == "ok" and T.canon(idl[1]) == T.canon(to_tv(tr)) and idl[2] == 0
     if not eq or not conf or b != want:
-        ctx.fail(dict(cls, outcome="returned"), case,
+        ctx.fail(dict(cls, outcome="returned", over=len(want) - cap), case,
                  "x == from_buffer(to_bytes(x)): %s; strict IDL parse gives the tree: %s (%s); bytes %d, specification encoding %d" % (
                      eq, conf, sym(idl[0]), len(b), len(want)))
     else:
